@@ -663,6 +663,16 @@ def _orient_ifs(fn, rf, log, q):
                         changed = True
                         break
                     continue
+                # same polarity, other spelling of the test
+                rt = ref[blk_.a + k][0]
+                if t != rt and _unsigned(st.test)[0] == ru:
+                    try:
+                        st.test = ast.copy_location(
+                            ast.parse(rt, mode='eval').body, st.test)
+                        ast.fix_missing_locations(st)
+                        t = rt
+                    except SyntaxError:
+                        pass
                 # same polarity, other shape
                 if has_else and not st.orelse and _jump(st.body) and \
                         blk[i + 1:]:
@@ -698,13 +708,46 @@ def _enclosing_jump(fn, blk):
 # ---------------------------------------------------------------------------
 # L: loop headers
 
+from collections import Counter as _Counter
+
+
+def _free_index_name(fn, loop, candidates):
+    """A recorded loop-target name usable for `loop`: unused in the function,
+    or used only by other loops that neither contain nor follow into this
+    one (the name is dead at this loop)."""
+    inside = _names(loop)
+    for c_ in candidates:
+        if not c_.isidentifier() or c_ in inside:
+            continue
+        uses = [x for x in _own_nodes(fn) if isinstance(x, ast.Name)
+                and x.id == c_]
+        if not uses:
+            return c_
+        # every other use lies inside a for-loop that binds the name and
+        # does not enclose `loop`
+        ok = True
+        binders = [l for l in _own_nodes(fn) if isinstance(l, ast.For)
+                   and c_ in _names(l.target) and l is not loop]
+        for x in uses:
+            host = [l for l in binders if any(y is x for y in ast.walk(l))]
+            if not host or any(any(y is loop for y in ast.walk(l))
+                               for l in host):
+                ok = False
+                break
+        if ok:
+            return c_
+    return None
+
+
 def _loops_to_reference(fn, rf, log, q):
     ref_loops = rf.get('loops', [])
     ref_iters = {}
     for tg, it in ref_loops:
         ref_iters.setdefault(it, []).append(tg)
-    have = {_n(n.iter) for n in _own_nodes(fn) if isinstance(n, ast.For)}
-    for n in list(_own_nodes(fn)):
+    have = _Counter(_n(n.iter) for n in _own_nodes(fn)
+                    if isinstance(n, ast.For))
+    for n in sorted([x for x in _own_nodes(fn) if isinstance(x, ast.For)],
+                    key=lambda x: (x.lineno, x.col_offset)):
         if not isinstance(n, ast.For):
             continue
         it = n.iter
@@ -731,16 +774,14 @@ def _loops_to_reference(fn, rf, log, q):
             hdr = None
             for a_ in zc.args:
                 h_ = 'range(len(%s))' % _n(a_)
-                if h_ in ref_iters and h_ not in have:
+                if h_ in ref_iters and have[h_] < len(ref_iters[h_]):
                     hdr = h_
                     break
             elts = [e.id for e in ztg.elts]
             body_stores = _names(ast.Module(body=n.body, type_ignores=[]),
                                  ast.Store)
             if hdr is not None and not (set(elts) & body_stores):
-                used = _names(fn)
-                iname = zidx or (ref_iters[hdr][0] if ref_iters[hdr][0]
-                                 not in used else None)
+                iname = zidx or _free_index_name(fn, n, ref_iters[hdr])
                 if iname is not None and iname.isidentifier():
                     sub = {e: ast.Subscript(
                         value=copy.deepcopy(a_), slice=ast.Name(
@@ -751,7 +792,7 @@ def _loops_to_reference(fn, rf, log, q):
                         id=iname, ctx=ast.Store()), n.target)
                     n.iter = ast.copy_location(ast.parse(
                         hdr, mode='eval').body, it)
-                    have.add(hdr)
+                    have[hdr] += 1
                     log.append('%s: loop over %s restored to `for %s in %s`'
                                % (q, its, iname, hdr))
                     continue
@@ -787,17 +828,16 @@ def _loops_to_reference(fn, rf, log, q):
         else:
             cands = [('range(len(%s))' % s, ref_iters.get(
                 'range(len(%s))' % s))]
-        cands = [(h, t) for h, t in cands if t and h not in have]
+        cands = [(h, t) for h, t in cands if t and have[h] < len(t)]
         if not cands:
             continue
         header, tgs = cands[0]
         if elt in _names(ast.Module(body=n.body, type_ignores=[]),
                          ast.Store):
             continue
-        used = _names(fn)
         if idxname is None:
-            idxname = tgs[0] if tgs[0] not in used else None
-            if idxname is None or not idxname.isidentifier():
+            idxname = _free_index_name(fn, n, tgs)
+            if idxname is None:
                 continue
         sub = ast.Subscript(value=copy.deepcopy(seq), slice=ast.Name(
             id=idxname, ctx=ast.Load()), ctx=ast.Load())
@@ -806,7 +846,7 @@ def _loops_to_reference(fn, rf, log, q):
         n.target = ast.copy_location(ast.Name(id=idxname, ctx=ast.Store()),
                                      n.target)
         n.iter = ast.copy_location(ast.parse(header, mode='eval').body, it)
-        have.add(header)
+        have[header] += 1
         log.append('%s: loop over %s restored to `for %s in %s`'
                    % (q, its, idxname, header))
     ast.fix_missing_locations(fn)
@@ -817,7 +857,10 @@ def _loops_to_reference(fn, rf, log, q):
 
 def _literal_items(it):
     if isinstance(it, (ast.Tuple, ast.List)) and all(
-            isinstance(e, ast.Constant) for e in it.elts):
+            isinstance(e, ast.Constant) or _pure_lookup(e) or (
+                isinstance(e, (ast.Tuple, ast.List)) and all(
+                    isinstance(x, ast.Constant) or _pure_lookup(x)
+                    for x in e.elts)) for e in it.elts):
         return [e for e in it.elts]
     if isinstance(it, ast.Call) and isinstance(it.func, ast.Name) and \
             it.func.id == 'range' and all(isinstance(a, ast.Constant) and
@@ -829,26 +872,79 @@ def _literal_items(it):
     return None
 
 
+def _guard_continues(body):
+    """Rewrite top-level `if T: continue` guards of a loop body into nested
+    ifs; None if another continue / break remains."""
+    out = []
+    for k, st in enumerate(body):
+        if isinstance(st, ast.If) and not st.orelse and len(st.body) == 1 \
+                and isinstance(st.body[0], ast.Continue):
+            rest = _guard_continues(body[k + 1:])
+            if rest is None:
+                return None
+            if rest:
+                new = ast.If(test=negate(st.test), body=rest, orelse=[])
+                out.append(ast.copy_location(new, st))
+            return out
+        if any(isinstance(x, (ast.Break, ast.Continue))
+               for x in ast.walk(st)):
+            return None
+        out.append(st)
+    return out
+
+
 def _unroll_literal_loops(fn, rf, log, q):
-    ref_loops = {(t, i) for t, i in rf.get('loops', [])}
+    ref_loops = {i for t, i in rf.get('loops', [])}
     for blk in _blocks(fn):
         i = 0
         while i < len(blk):
             st = blk[i]
-            if isinstance(st, ast.For) and isinstance(st.target, ast.Name) \
-                    and not st.orelse and (_n(st.target), _n(st.iter)) \
-                    not in ref_loops:
+            if isinstance(st, ast.For) and not st.orelse and \
+                    _n(st.iter) not in ref_loops and \
+                    isinstance(st.target, (ast.Name, ast.Tuple)):
                 items = _literal_items(st.iter)
-                if items is not None and 1 <= len(items) <= 4 and not any(
-                        isinstance(x, (ast.Break, ast.Continue))
-                        for s_ in st.body for x in ast.walk(s_)) and \
-                        st.target.id not in _names(ast.Module(
-                            body=st.body, type_ignores=[]), ast.Store):
+                tnames = [st.target.id] if isinstance(st.target, ast.Name) \
+                    else [e.id for e in st.target.elts
+                          if isinstance(e, ast.Name)]
+                body = _guard_continues(st.body) if items is not None \
+                    else None
+                ok = items is not None and body is not None and \
+                    1 <= len(items) <= 4 and tnames and not (
+                        set(tnames) & _names(ast.Module(
+                            body=st.body, type_ignores=[]), ast.Store))
+                if ok and isinstance(st.target, ast.Tuple):
+                    ok = len(tnames) == len(st.target.elts) and all(
+                        isinstance(c_, (ast.Tuple, ast.List)) and
+                        len(c_.elts) == len(tnames) for c_ in items)
+                if ok:
+                    # locals of the body that die with the iteration get one
+                    # name per copy
+                    after = set()
+                    for s_ in blk[i + 1:]:
+                        after |= _names(s_)
+                    before = set()
+                    for s_ in blk[:i]:
+                        before |= _names(s_)
+                    blocal = _names(ast.Module(body=body, type_ignores=[]),
+                                    ast.Store) - after - before - set(
+                                        fn.args.args and [a.arg for a in
+                                                          fn.args.args] or [])
+                    # a name also read before being written in the body is
+                    # loop-carried: keep it
+                    carried = {x.id for x in _exposed_simple(body)}
+                    blocal -= carried
                     new = []
-                    for c_ in items:
-                        for s_ in st.body:
+                    for k, c_ in enumerate(items):
+                        sub = {tnames[0]: c_} if isinstance(
+                            st.target, ast.Name) else dict(zip(tnames,
+                                                               c_.elts))
+                        ren = {n_: '%s__%d' % (n_, k) for n_ in blocal}
+                        for s_ in body:
                             cp = copy.deepcopy(s_)
-                            cp = _Subst({st.target.id: c_}).visit(cp)
+                            cp = _Subst(sub).visit(cp)
+                            for x in ast.walk(cp):
+                                if isinstance(x, ast.Name) and x.id in ren:
+                                    x.id = ren[x.id]
                             new.append(cp)
                     blk[i:i + 1] = new
                     log.append('%s: literal loop `for %s in %s` unrolled'
@@ -857,6 +953,31 @@ def _unroll_literal_loops(fn, rf, log, q):
                     continue
             i += 1
     ast.fix_missing_locations(fn)
+
+
+def _exposed_simple(body):
+    """Names read in a statement list before any (textually earlier) plain
+    store to them: values carried into the list."""
+    out, defined = [], set()
+    for st in body:
+        aug = {id(n.target) for n in ast.walk(st)
+               if isinstance(n, ast.AugAssign)}
+        # within one simple statement the value side is read first
+        names = [n for n in ast.walk(st) if isinstance(n, ast.Name)]
+        names.sort(key=lambda n: (n.lineno, n.col_offset))
+        stores_here = []
+        for x in names:
+            if isinstance(x.ctx, ast.Load) or id(x) in aug:
+                if x.id not in defined:
+                    out.append(x)
+            if isinstance(x.ctx, ast.Store) and id(x) not in aug:
+                stores_here.append(x)
+                if isinstance(st, (ast.If, ast.For, ast.While, ast.With,
+                                   ast.Try)):
+                    defined.add(x.id)      # positional order inside blocks
+        for x in stores_here:
+            defined.add(x.id)
+    return out
 
 
 # ---------------------------------------------------------------------------
@@ -1137,10 +1258,11 @@ def canonicalise(tree, modname, text=None):
         if not helpers_inlined and describe(fn) == rf:
             continue            # unchanged forms: nothing to rewrite
         n0 = len(log)
+        _unroll_literal_loops(fn, rf, log, q)
         _orient_ifs(fn, rf, log, q)
         _loops_to_reference(fn, rf, log, q)
-        _unroll_literal_loops(fn, rf, log, q)
         _temps_and_names(fn, rf, log, q)
+        _orient_ifs(fn, rf, log, q)
         if len(log) > n0 or any(l.startswith('inlined helper')
                                 for l in log):
             ast.fix_missing_locations(fn)
